@@ -3,6 +3,7 @@ package main
 import (
 	"bytes"
 	"context"
+	"encoding/json"
 	"fmt"
 	"io/fs"
 	"os"
@@ -34,6 +35,9 @@ type unit struct {
 	Names    map[string]bool // identifiers declared by the program (for message normalisation)
 	Dir      string
 	Rejected bool // the parse / validation stage rejected it (json gate)
+	// enums (by file base name) whose numbers are pairwise distinct in the
+	// model: the compiler must give every member its own number too
+	DistinctEnums map[string][]string
 }
 
 func (u *unit) has(tag string) bool {
@@ -182,6 +186,30 @@ func (c *c11) fail(diagClass string, cp *comp, what, diag, file string) {
 	c.violation(sig, fmt.Sprintf("%s [%s, program %s]: %s", what, cp.label(), cp.U.ID, clip(firstLines(reAnsi.ReplaceAllString(diag, ""), 3), 400)), w)
 }
 
+// enumNumbersCollide reads frugal.json and reports an enum of want (file base
+// name -> enum names) in which two members share a number.
+func enumNumbersCollide(b []byte, want map[string][]string) string {
+	var top map[string]struct {
+		T map[string]struct {
+			E map[string][]string `json:"e"`
+		} `json:"t"`
+	}
+	if len(want) == 0 || json.Unmarshal(b, &top) != nil {
+		return ""
+	}
+	for base, names := range want {
+		for _, n := range names {
+			for num, members := range top[base].T[n].E {
+				if len(members) > 1 {
+					sort.Strings(members)
+					return fmt.Sprintf("enum %s.%s: members %s all have the number %s", base, n, strings.Join(members, ", "), num)
+				}
+			}
+		}
+	}
+	return ""
+}
+
 func firstLines(s string, n int) string {
 	l := strings.Split(strings.TrimSpace(s), "\n")
 	if len(l) > n {
@@ -246,6 +274,25 @@ func newUnit(idx int, id, pool, class, tag string, p *idl.Program, style idl.Sty
 	u := &unit{Idx: idx, ID: id, Pool: pool, Class: class, ClassTag: tag, Src: map[string]string{}, Root: p.Root().FileName(), Features: p.FeatureList(), Names: programNames(p)}
 	for _, f := range p.Files {
 		u.Src[f.FileName()] = idl.RenderFile(f, style)
+	}
+	// (programs of the negative_enum_values class are left out: the parser
+	// renumbers negative values, a known finding of its own)
+	if !u.has("negative_enum_value") {
+		u.DistinctEnums = map[string][]string{}
+		for _, f := range p.Files {
+			for _, e := range f.Enums() {
+				seen, distinct := map[int]bool{}, true
+				for _, v := range e.Values {
+					if seen[v.Value] {
+						distinct = false
+					}
+					seen[v.Value] = true
+				}
+				if distinct {
+					u.DistinctEnums[f.Base] = append(u.DistinctEnums[f.Base], e.Name)
+				}
+			}
+		}
 	}
 	return u
 }
@@ -472,6 +519,9 @@ func (c *c11) oracles() {
 			c.mu.Lock()
 			c.jsonEmpty += empty
 			c.mu.Unlock()
+			if msg := enumNumbersCollide(b, cp.U.DistinctEnums); msg != "" {
+				c.fail("enum-numbers-collide", cp, "members of an enum whose numbers are distinct in the IDL share a number after parsing (frugal.json)", msg, "frugal.json")
+			}
 		}
 	}
 
